@@ -6,7 +6,7 @@ CONFIG = {
     "lean_props": "J5V/Props/C07.lean",
     "extract": ["setext", "imports"],
     "streams": [
-        stream("total", {"quick": 16000, "thorough": 64000, "search": 16000}, {"quick": 16, "thorough": 16, "search": 16},
+        stream("total", {"quick": 9600, "thorough": 64000, "search": 9600}, {"quick": 16, "thorough": 16, "search": 16},
                "every shard first runs the FULL rule x field-type matrix (each documented rule - pattern / minLength / maxLength / const / "
                "minimum / maximum / exclusiveMinimum / exclusiveMaximum / multipleOf with small and format-boundary literals / "
                "minProperties / maxProperties / in / notIn / minItems / maxItems / uniqueItems / minPairs / maxPairs - on each field type "
